@@ -572,7 +572,33 @@ func c19Sequence(c *Ctx, i int, r *Rng, add func(line, impl, cas string)) {
 			p = relock
 			op = []int{1, 5}[k]
 		}
+		// `track /x` while `x` (which covers it) is tracked with a lockable state that needs no change is
+		// "already supported": nothing is added, so a later `untrack x` leaves nothing behind for /x either
+		covered := func(flag string) bool {
+			if !strings.HasPrefix(p, "/") {
+				return false
+			}
+			a, ok := active[strings.TrimPrefix(p, "/")]
+			if !ok {
+				return false
+			}
+			if _, own := active[p]; own {
+				return false
+			}
+			return flag == "" || (flag == "l" && a.lockable) || (flag == "u" && !a.lockable)
+		}
+		if (op == 1 && covered("l")) || (op == 2 && covered("u")) || (op > 2 && covered("")) {
+			args = []string{"track", p}
+			if op == 1 {
+				args = []string{"track", "--lockable", p}
+			} else if op == 2 {
+				args = []string{"track", "--not-lockable", p}
+			}
+			op = -1 // the expectation does not change
+			c.R.Count("seq.rooted-covered-by-unrooted")
+		}
 		switch op {
+		case -1:
 		case 0:
 			args = []string{"untrack", p}
 			if _, ok := active[p]; ok {
